@@ -42,9 +42,10 @@ const (
 
 // Policy kinds.
 const (
-	polSticky  = iota // keep the current task; switch with probability 1/switchDen at preemptible points
-	polUniform        // uniform among eligible tasks
-	polBudget         // at most `preemptBudget` switches away from a runnable current task, placed by the tape
+	polSticky   = iota // keep the current task; switch with probability 1/switchDen at preemptible points
+	polUniform         // uniform among eligible tasks
+	polBudget          // at most `preemptBudget` switches away from a runnable current task, placed by the tape
+	polPriority        // every task has a (salt-derived) priority, the highest eligible one runs; at 1-3 tape-placed steps the running task drops below everybody else (PCT style: a task can be starved for as long as anything else can run)
 )
 
 type Task struct {
@@ -61,6 +62,7 @@ type Task struct {
 	gateFails   int // consecutive failed probes of the current gate
 	gateWait    int // steps by other tasks to sit out before the next probe (exponential back-off)
 	daemon      bool
+	prio        uint64 // polPriority: larger runs first; demoted tasks get small values
 	auto        bool
 	spawned     bool      // a library-started goroutine adopted at its first statement (lazyGo)
 	settling    bool      // parked in Settle: only released when no other task is eligible
@@ -95,6 +97,8 @@ type World struct {
 	step      int64
 	cur       int
 	policy    int
+	demoteAt  []int64 // polPriority: steps at which the running task is demoted
+	demoted   uint64  // polPriority: number of demotions so far
 	switchDen int
 	budget    int
 	maxSteps  int
@@ -304,7 +308,7 @@ func NewWorld(tape *Tape, scenario string, trace bool) *World {
 	w := &World{Tape: tape, Scenario: scenario, cur: -1, traceOn: trace, maxSteps: 600}
 	w.startTime = time.Now()
 	// scheduling policy, swarm style
-	switch tape.Choose(4) {
+	switch tape.Choose(5) {
 	case 0, 1:
 		w.policy = polSticky
 		w.switchDen = []int{4, 2, 3, 6, 10, 16}[tape.Choose(6)]
@@ -314,6 +318,11 @@ func NewWorld(tape *Tape, scenario string, trace bool) *World {
 		w.policy = polBudget
 		w.budget = 1 + tape.Choose(3)
 		w.switchDen = []int{6, 3, 10, 20}[tape.Choose(4)]
+	case 4:
+		w.policy = polPriority
+		for i, n := 0, 1+tape.Choose(3); i < n; i++ {
+			w.demoteAt = append(w.demoteAt, int64(1+tape.Choose([]int{30, 100, 300}[tape.Choose(3)])))
+		}
 	}
 	w.allPoints = !tape.Flag(1, 3)
 	w.lazyGo = tape.Flag(1, 2) && !raceBuild // (race builds randomise the runtime's own run queue; and races do not depend on the schedule)
@@ -384,6 +393,13 @@ func (w *World) addTask(t *Task) {
 		panic("verifsim: too many tasks")
 	}
 	t.idx = n
+	// (from the name, not from the index: the order in which library-started goroutines register themselves is not
+	// deterministic, their names are)
+	h := uint64(14695981039346656037)
+	for i := 0; i < len(t.Name); i++ {
+		h = (h ^ uint64(t.Name[i])) * 1099511628211
+	}
+	t.prio = 1<<32 + splitmix(w.salt<<16^h)>>33
 	w.tasks[n] = t
 	sti32(&w.ntasks, int32(n+1))
 	w.mu.Unlock()
@@ -771,8 +787,9 @@ func (w *World) collect(elig []parkedInfo) (out []parkedInfo, blockedGates int, 
 			}
 		}
 	}
-	if len(out) == 0 && len(settling) > 0 {
-		// nothing else can run: the settling tasks (in name order) become eligible
+	if len(out) == 0 && blockedGates == 0 && len(settling) > 0 {
+		// nothing else can run (a task that sits out a back-off at a lock gate can: it is not at rest): the settling
+		// tasks (in name order) become eligible
 		for _, p := range settling {
 			out = append(out, p)
 			for k := len(out) - 1; k > 0 && out[k].t.Name < out[k-1].t.Name; k-- {
@@ -938,6 +955,20 @@ func (w *World) Run() {
 				} else if w.budget > 0 && w.Tape.Flag(1, w.switchDen) {
 					w.budget--
 					k = 1 + w.Tape.Choose(len(elig)-1)
+				}
+			case polPriority:
+				if ci >= 0 {
+					for _, at := range w.demoteAt {
+						if at == w.Step() {
+							w.demoted++
+							elig[0].t.prio = 1<<31 - w.demoted
+						}
+					}
+				}
+				for i := range elig {
+					if elig[i].t.prio > elig[k].t.prio {
+						k = i
+					}
 				}
 			}
 			pick = elig[k]
